@@ -223,6 +223,7 @@ def install(ctx):
                 c.close('contract:model.altitude-profile-is-lower-boundary', self.altitudeProfile, zb[:-1], 0.0, **w)
         return True
 
+    _h['judge_model'] = model_profiles_are_hydrostatic_and_one_per_layer     # workloads re-judge a model later on
     SimpleForwardModel.initialize_profiles = icontract.ensure(model_profiles_are_hydrostatic_and_one_per_layer,
                                                               error=PostBroken)(
         SimpleForwardModel.__dict__['initialize_profiles'])
